@@ -171,3 +171,24 @@ def deriv(space, a, bidx, x, m):
         d_to = [1.0, 1 / (4 * math.pi * p * x), 1 / b][a]
         d_from = [1.0, 4 * math.pi * p * x, b][bidx]
     return abs(d_to * d_from)
+
+
+def same_arrays_twice(pystog, case):
+    """call the conversion twice with the very same array objects; returns a message if the arguments were altered
+    or the second result differs"""
+    names = RN if case["space"] == 0 else GN
+    f = getattr(pystog.Converter(), "%s_to_%s" % (names[case["X"]], names[case["Y"]]))
+    x = np.array(case["x"], float)
+    y = np.array(case["y"], float)
+    d = None if case["dy"] is None else np.array(case["dy"], float)
+    keep = [a.copy() if a is not None else None for a in (x, y, d)]
+    kw = kwargs_of(case["mat"])
+    first = f(x, y, d, **kw)
+    for nm, a, b in zip(("abscissa", "function", "uncertainty"), (x, y, d), keep):
+        if a is not None and not np.array_equal(a, b, equal_nan=True):
+            return "%s_to_%s altered the %s array it was given" % (names[case["X"]], names[case["Y"]], nm)
+    second = f(x, y, d, **kw)
+    for u, w in zip(first, second):
+        if (u is None) != (w is None) or (u is not None and not np.array_equal(np.asarray(u, float), np.asarray(w, float), equal_nan=True)):
+            return "%s_to_%s gives a different result when called again with the same arrays" % (names[case["X"]], names[case["Y"]])
+    return None
